@@ -12,7 +12,7 @@ from cfg import cfg_of, Origins, guards_of
 
 META = {
     'level': 'other',
-    'decides': 'the switch that installs the reward handle, the no-op dispatch when it is absent, and the origin of the with_reward_beneficiary argument on every handler (re)construction path',
+    'decides': 'the switch that installs the reward handle, the no-op dispatch when it is absent, and the origin of the with_reward_beneficiary argument on every handler (re)construction path; (cfg optimism) that outside optimism::reward_beneficiary only the caller account is loaded for writing',
     'does_not_decide': 'that every other effect of the transaction is identical with and without rewards (an equivalence over executions)',
     'explanation': 'Value-origin analysis (A2) of the flag argument at all call sites of the handler constructors across the workspace; dominating-guard extraction on the switch in PostExecutionHandler::new.',
 }
